@@ -1,7 +1,529 @@
-//! C19 — not implemented yet.
-use vmon::report::Args;
+//! C19 — exact scalar indices (btree, bitmap, label_list) answer filters exactly like a full scan.
+//!
+//! Case = random table with an indexed column (random type, nullable), a random index type and a
+//! random history of index states (fresh, unindexed appends, deletes, updates, compaction with and
+//! without deferred remap, optimize_indices append/merge). In every state random predicate trees
+//! are run with use_scalar_index(true), (false) and judged against the references.
 
-pub fn run(_args: &Args) -> i32 {
-    eprintln!("HARNESS-ERROR C19 not implemented");
-    2
+use crate::c16::{judge, reference, Expected, RefOutcome};
+use crate::core::*;
+use lance::dataset::optimize::{compact_files, CompactionOptions};
+use lance::dataset::UpdateBuilder;
+use lance_index::DatasetIndexExt;
+use lance::Dataset;
+use lance_encoding::version::LanceFileVersion;
+use lance_index::optimize::OptimizeOptions;
+use lance_index::scalar::{BuiltinIndexType, ScalarIndexParams};
+use lance_index::IndexType;
+use serde_json::json;
+use std::collections::BTreeSet;
+use std::sync::atomic::{AtomicU64, Ordering as AO};
+use std::sync::Arc;
+use vmon::prng::{fnv_str, Rng};
+use vmon::report::{Args, Report};
+use vmon::table::IdAlloc;
+
+#[derive(Clone, Copy, Debug, PartialEq)]
+pub enum Ix {
+    BTree,
+    Bitmap,
+    LabelList,
+}
+
+impl Ix {
+    pub fn name(&self) -> &'static str {
+        match self {
+            Ix::BTree => "btree",
+            Ix::Bitmap => "bitmap",
+            Ix::LabelList => "label_list",
+        }
+    }
+    pub fn params(&self) -> (IndexType, ScalarIndexParams) {
+        match self {
+            Ix::BTree => (IndexType::BTree, ScalarIndexParams::for_builtin(BuiltinIndexType::BTree)),
+            Ix::Bitmap => (IndexType::Bitmap, ScalarIndexParams::for_builtin(BuiltinIndexType::Bitmap)),
+            Ix::LabelList => (IndexType::LabelList, ScalarIndexParams::for_builtin(BuiltinIndexType::LabelList)),
+        }
+    }
+}
+
+pub fn lit_to_cell(ty: &ColTy, l: &Lit) -> Cell {
+    match (class_of(ty), l) {
+        (_, Lit::Null) => Cell::Null,
+        (Class::Int, Lit::Int(i)) => Cell::Int(*i),
+        (Class::Float, Lit::Int(i)) => Cell::Float(if *ty == ColTy::F32 { *i as f32 as f64 } else { *i as f64 }),
+        (Class::Float, Lit::Float(f)) => Cell::Float(if *ty == ColTy::F32 { *f as f32 as f64 } else { *f }),
+        (Class::Str, Lit::Str(s)) => Cell::Str(s.clone()),
+        (Class::Bool, Lit::Bool(b)) => Cell::Bool(*b),
+        (Class::Date, Lit::Date(d)) => Cell::Int(*d as i128),
+        (Class::Ts, Lit::Ts(t)) => Cell::Int(*t as i128),
+        _ => panic!("lit_to_cell {ty:?} {l:?}"),
+    }
+}
+
+/// In-range literal usable as an UPDATE value for the column.
+pub fn value_lit(rng: &mut Rng, gen: &PredGen, col: usize) -> Lit {
+    let ty = &gen.m.cols[col].ty;
+    for _ in 0..20 {
+        let l = gen.lit_for(rng, col);
+        let ok = match (&l, class_of(ty)) {
+            (Lit::Null, _) => gen.m.cols[col].nullable,
+            (Lit::Int(i), Class::Int) => {
+                let (lo, hi) = int_bounds(ty);
+                *i >= lo && *i <= hi
+            }
+            (Lit::Float(_), Class::Int) => false,
+            _ => true,
+        };
+        if ok {
+            return l;
+        }
+    }
+    match class_of(ty) {
+        Class::Int => Lit::Int(1),
+        Class::Float => Lit::Float(1.0),
+        Class::Str => Lit::Str("u".into()),
+        Class::Bool => Lit::Bool(true),
+        Class::Date => Lit::Date(1),
+        Class::Ts => Lit::Ts(1),
+        Class::Other => Lit::Null,
+    }
+}
+
+pub struct IdxTable {
+    pub ds: Dataset,
+    pub model: Model,
+    pub spec: TableSpec,
+    pub ids: IdAlloc,
+    pub version: LanceFileVersion,
+    pub history: Vec<String>,
+}
+
+impl IdxTable {
+    pub async fn append(&mut self, rng: &mut Rng, n: usize) -> Result<(), String> {
+        let b = self.spec.batch(rng, &self.ids.take(n));
+        self.model.insert_batch(&b);
+        let p = lance::dataset::WriteParams {
+            mode: lance::dataset::WriteMode::Append,
+            data_storage_version: Some(self.version),
+            ..Default::default()
+        };
+        self.ds.append(reader_of(vec![b]), Some(p)).await.map_err(|e| format!("append: {e}"))?;
+        self.history.push(format!("append({n})"));
+        Ok(())
+    }
+    pub async fn delete_some(&mut self, rng: &mut Rng) -> Result<(), String> {
+        let all: Vec<i64> = self.model.rows.keys().copied().collect();
+        if all.len() < 4 {
+            return Ok(());
+        }
+        let k = rng.urange(1, (all.len() / 3).max(1));
+        let victims: Vec<i64> = rng.sample_indices(all.len(), k).into_iter().map(|i| all[i]).collect();
+        let list = victims.iter().map(|v| v.to_string()).collect::<Vec<_>>().join(",");
+        self.ds.delete(&format!("id IN ({list})")).await.map_err(|e| format!("delete: {e}"))?;
+        for v in &victims {
+            self.model.rows.remove(v);
+        }
+        self.history.push(format!("delete({k})"));
+        Ok(())
+    }
+    pub async fn update_some(&mut self, rng: &mut Rng, col: usize) -> Result<(), String> {
+        let all: Vec<i64> = self.model.rows.keys().copied().collect();
+        if all.len() < 4 || class_of(&self.model.cols[col].ty) == Class::Other {
+            return Ok(());
+        }
+        let k = rng.urange(1, (all.len() / 3).max(1));
+        let victims: Vec<i64> = rng.sample_indices(all.len(), k).into_iter().map(|i| all[i]).collect();
+        let list = victims.iter().map(|v| v.to_string()).collect::<Vec<_>>().join(",");
+        let lit = {
+            let gen = PredGen::new(
+                &self.model,
+                GenCfg { cols: vec![col], focus: vec![], max_depth: 0, hostile_literals: true, allow_colcmp: false },
+            );
+            value_lit(rng, &gen, col)
+        };
+        let name = self.model.cols[col].name.clone();
+        let res = UpdateBuilder::new(Arc::new(self.ds.clone()))
+            .update_where(&format!("id IN ({list})"))
+            .and_then(|b| b.set(&name, &lit.sql()))
+            .and_then(|b| b.build());
+        let job = res.map_err(|e| format!("update build ({name} = {}): {e}", lit.sql()))?;
+        let r = job.execute().await.map_err(|e| format!("update exec: {e}"))?;
+        if r.rows_updated as usize != victims.len() {
+            return Err(format!("update reported {} rows, expected {}", r.rows_updated, victims.len()));
+        }
+        self.ds = r.new_dataset.as_ref().clone();
+        let cell = lit_to_cell(&self.model.cols[col].ty, &lit);
+        for v in &victims {
+            self.model.rows.get_mut(v).unwrap()[col] = cell.clone();
+        }
+        self.history.push(format!("update({k},{}={})", name, lit.sql()));
+        Ok(())
+    }
+    pub async fn compact(&mut self, rng: &mut Rng) -> Result<(), String> {
+        let defer = rng.chance(1, 3);
+        let opts = CompactionOptions {
+            target_rows_per_fragment: *rng.pick(&[50usize, 200, 100_000]),
+            materialize_deletions_threshold: *rng.pick(&[0.0f32, 0.1]),
+            defer_index_remap: defer,
+            ..Default::default()
+        };
+        match compact_files(&mut self.ds, opts, None).await {
+            Ok(m) => {
+                self.history.push(format!("compact(defer={defer},-{}+{})", m.fragments_removed, m.fragments_added));
+                Ok(())
+            }
+            Err(e) => match classify_err(&e) {
+                ScanErr::Rejected(_) => {
+                    self.history.push(format!("compact(defer={defer}) rejected"));
+                    Ok(())
+                }
+                _ => Err(format!("compact(defer={defer}): {e}")),
+            },
+        }
+    }
+    pub async fn optimize(&mut self, rng: &mut Rng) -> Result<(), String> {
+        let (o, d) = match rng.below(3) {
+            0 => (OptimizeOptions::append(), "append"),
+            1 => (OptimizeOptions::merge(*rng.pick(&[1usize, 2, 10])), "merge"),
+            _ => (OptimizeOptions::new(), "default"),
+        };
+        self.ds.optimize_indices(&o).await.map_err(|e| format!("optimize_indices({d}): {e}"))?;
+        self.history.push(format!("optimize({d})"));
+        Ok(())
+    }
+}
+
+/// Narrow classification of an index-vs-reference deviation (see DESIGN §2.7 / §6).
+pub fn classify_index_deviation(
+    base_sig: &str,
+    got: &BTreeSet<i64>,
+    exp: &BTreeSet<i64>,
+    pred: &Pred,
+    m: &Model,
+    indexed: &[(usize, Ix)],
+) -> String {
+    let (extra, missing) = set_diff(got, exp);
+    if !extra.is_empty() && missing.is_empty() {
+        let mut neg = vec![];
+        pred.negated_leaves(true, &mut neg);
+        // indexed columns that occur under a negated leaf and in which *every* extra row is NULL
+        let mut kinds = BTreeSet::new();
+        for (kind, col) in &neg {
+            if indexed.iter().any(|(c, ix)| c == col && *ix != Ix::LabelList) {
+                kinds.insert((*kind, *col));
+            }
+        }
+        if !kinds.is_empty() {
+            let all_null_somewhere = extra.iter().all(|id| {
+                let r = &m.rows[id];
+                kinds.iter().any(|(_, c)| r[*c].is_null())
+            });
+            if all_null_somewhere {
+                // keep only the kinds whose column is NULL in at least one extra row
+                let ks: BTreeSet<&str> = kinds
+                    .iter()
+                    .filter(|(_, c)| extra.iter().any(|id| m.rows[id][*c].is_null()))
+                    .map(|(k, _)| *k)
+                    .collect();
+                return format!(
+                    "index-extra-rows-all-null-in-indexed-col-under-negated-{}",
+                    ks.into_iter().collect::<Vec<_>>().join("+")
+                );
+            }
+        }
+    }
+    format!("index-{base_sig}")
+}
+
+fn index_types_for(ty: &ColTy) -> Vec<Ix> {
+    match ty {
+        ColTy::ListI32 => vec![Ix::LabelList],
+        _ => vec![Ix::BTree, Ix::BTree, Ix::Bitmap],
+    }
+}
+
+pub fn run(args: &Args) -> i32 {
+    let selftest = args.extra.contains_key("selftest");
+    let report = Report::new(
+        args,
+        "exploration",
+        "case = (indexed column type, index type, history of index states, predicate tree); each predicate is run with and without the scalar index and judged against the references; \
+         distinct = hash(index type, column type, state kind, predicate shape); non-trivial = explain_plan shows a scalar index node (ScalarIndexQuery/MaterializeIndex) and the predicate selects neither 0 nor all rows",
+        (75, 900),
+    )
+    .with_min_nontrivial(20);
+    let threads = n_threads();
+    let max_cases: u64 = args.tier.pick(3000, 300_000);
+    let preds_per_state = args.tier.pick(10, 24);
+    let max_rows = args.tier.pick(250, 1200);
+    let next = AtomicU64::new(0);
+    let only_case: Option<u64> = args.extra.get("case").and_then(|s| s.parse().ok());
+    let st_fired = AtomicU64::new(0);
+    let st_total = AtomicU64::new(0);
+
+    run_threads(threads, |_t, rt| loop {
+        let mut case = next.fetch_add(1, AO::Relaxed);
+        if let Some(c) = only_case {
+            if case > 0 {
+                break;
+            }
+            case = c;
+        }
+        if case >= max_cases || !report.time_left() {
+            break;
+        }
+        let mut rng = Rng::for_case(args.seed, case);
+        rt.block_on(async {
+            // ---- table
+            let mut pool = query_pool();
+            pool.push(ColTy::ListI32);
+            pool.push(ColTy::ListI32);
+            let xty = rng.pick(&pool).clone();
+            let ix = *rng.pick(&index_types_for(&xty));
+            let yty = rng.pick(&query_pool()).clone();
+            let spec = TableSpec {
+                cols: vec![
+                    ColSpec { name: "x".into(), ty: xty.clone(), nullable: rng.chance(3, 4), null_eighths: *rng.pick(&[0u8, 1, 2, 4]), small_domain: rng.chance(3, 4) },
+                    ColSpec { name: "y".into(), ty: yty.clone(), nullable: rng.chance(1, 2), null_eighths: *rng.pick(&[0u8, 1, 4]), small_domain: true },
+                ],
+            };
+            let version = *rng.pick(&[LanceFileVersion::V2_0, LanceFileVersion::V2_1]);
+            let nfrag = rng.urange(1, 3);
+            let total = rng.urange(20, max_rows);
+            let mut ids = IdAlloc::new(0);
+            let mut model = Model::new(&spec);
+            let mut frags = vec![];
+            for _ in 0..nfrag {
+                let b = spec.batch(&mut rng, &ids.take((total / nfrag).max(1)));
+                model.insert_batch(&b);
+                frags.push(b);
+            }
+            let stable = rng.chance(1, 3);
+            let ds = match write_table(&unique_uri("c19"), &frags, version, None, None, stable).await {
+                Ok(d) => d,
+                Err(e) => {
+                    report.harness_error(&format!("case {case}: write: {e}"));
+                    return;
+                }
+            };
+            let mut t = IdxTable { ds, model, spec: spec.clone(), ids, version, history: vec![] };
+            // ---- indices
+            let mut indexed: Vec<(usize, Ix)> = vec![];
+            let (it, ip) = ix.params();
+            match t.ds.create_index(&["x"], it, Some("x_idx".into()), &ip, true).await {
+                Ok(()) => indexed.push((1, ix)),
+                Err(e) => {
+                    report.rejected();
+                    report.count("index_creation_rejected", 1);
+                    if report.counter("index_creation_rejected") <= 3 {
+                        report.sample(json!({"index_rejected": format!("{} on {:?}", ix.name(), xty), "error": e.to_string().chars().take(160).collect::<String>()}));
+                    }
+                    return;
+                }
+            }
+            if rng.chance(1, 3) {
+                let iy = *rng.pick(&[Ix::BTree, Ix::Bitmap]);
+                let (it, ip) = iy.params();
+                if t.ds.create_index(&["y"], it, Some("y_idx".into()), &ip, true).await.is_ok() {
+                    indexed.push((2, iy));
+                }
+            }
+            report.count("tables", 1);
+            let table_desc = format!(
+                "x:{:?}{} [{}] y:{:?} [{}] v={} stable_row_ids={}",
+                xty,
+                if spec.cols[0].nullable { "?" } else { "" },
+                ix.name(),
+                yty,
+                indexed.iter().find(|(c, _)| *c == 2).map(|(_, i)| i.name()).unwrap_or("-"),
+                storage_version_name(version),
+                stable
+            );
+            // ---- states
+            let nstates = rng.urange(1, 4);
+            for state in 0..nstates {
+                if !report.time_left() {
+                    break;
+                }
+                if state > 0 {
+                    let op = rng.below(6);
+                    let n_app = rng.urange(3, 60);
+                    let r = match op {
+                        0 => t.append(&mut rng, n_app).await,
+                        1 => t.delete_some(&mut rng).await,
+                        2 => t.update_some(&mut rng, 1).await,
+                        3 => t.compact(&mut rng).await,
+                        4 => t.optimize(&mut rng).await,
+                        _ => {
+                            // append then optimize: the classic delta-index path
+                            let a = t.append(&mut rng, 20).await;
+                            if a.is_ok() {
+                                t.optimize(&mut rng).await
+                            } else {
+                                a
+                            }
+                        }
+                    };
+                    if let Err(e) = r {
+                        // a failing maintenance operation on a valid table is not this property's
+                        // subject, but it must not pass silently
+                        report.count("history_op_failed", 1);
+                        report.harness_error(&format!("case {case}: history op failed: {e}; table {table_desc}; history {:?}", t.history));
+                        return;
+                    }
+                }
+                let state_kind = t.history.last().map(|s| s.split('(').next().unwrap().to_string()).unwrap_or_else(|| "fresh".into());
+                report.count(&format!("state_{state_kind}"), 1);
+                let m = &t.model;
+                let df = match DfRef::new(m.to_batch()) {
+                    Ok(d) => d,
+                    Err(e) => {
+                        report.harness_error(&format!("case {case}: datafusion reference: {e}"));
+                        return;
+                    }
+                };
+                let gen = PredGen::new(
+                    m,
+                    GenCfg { cols: vec![0, 1, 2], focus: vec![1], max_depth: 3, hostile_literals: true, allow_colcmp: false },
+                );
+                for pi in 0..preds_per_state {
+                    if !report.time_left() {
+                        break;
+                    }
+                    let pred = gen.gen_top(&mut rng);
+                    let sql = pred.sql(&m.cols);
+                    let ids_exp = match reference(&pred, &sql, m, &df).await {
+                        RefOutcome::Ok { ids, float_disagree, df_rejected } => {
+                            if float_disagree {
+                                report.count("float_special_decided_by_datafusion", 1);
+                            }
+                            if df_rejected {
+                                report.count("datafusion_ref_rejected", 1);
+                            }
+                            ids
+                        }
+                        RefOutcome::HarnessError(e) => {
+                            report.harness_error(&format!("case {case} state {state} p{pi}: {e}; table {table_desc}"));
+                            continue;
+                        }
+                    };
+                    let exp = Expected { set: ids_exp.clone(), seq: None, limit: None, offset: None };
+                    let q = Query { filter: Some(sql.clone()), ..Default::default() };
+                    let k_idx = Knobs { use_scalar_index: Some(true), ..Default::default() };
+                    let k_no = Knobs { use_scalar_index: Some(false), ..Default::default() };
+                    let witness = |what: &str, detail: serde_json::Value| {
+                        json!({"seed": args.seed, "case": case, "state": state, "pred_index": pi, "table": table_desc,
+                               "history": t.history, "filter": sql, "run": what, "rows": m.len(), "detail": detail})
+                    };
+                    // plan inspection
+                    let plan = explain(&t.ds, &q, &k_idx).await;
+                    let uses_index = match &plan {
+                        Ok(p) => p.contains("ScalarIndexQuery") || p.contains("MaterializeIndex"),
+                        Err(_) => false,
+                    };
+                    let mut executed = false;
+                    // indexed run (+ one random knob combination on top)
+                    let mut k_rand = Knobs::random(&mut rng);
+                    k_rand.use_scalar_index = Some(true);
+                    for (label, knobs) in [("index", &k_idx), ("noindex", &k_no), ("index+knobs", &k_rand)] {
+                        match run_scan(&t.ds, &q, knobs).await {
+                            Ok(mut out) => {
+                                executed = true;
+                                report.count("scans", 1);
+                                report.count("rows_compared", out.rows.len() as u64);
+                                if selftest {
+                                    if label == "index" && uses_index && out.rows.pop().is_some() {
+                                        st_total.fetch_add(1, AO::Relaxed);
+                                        if judge(&out, &exp, m).is_some() {
+                                            st_fired.fetch_add(1, AO::Relaxed);
+                                        }
+                                    }
+                                    continue;
+                                }
+                                if let Some(v) = judge(&out, &exp, m) {
+                                    let got: BTreeSet<i64> = out.ids().into_iter().collect();
+                                    let sig = if label == "noindex" {
+                                        format!("noindex-{}", v.sig)
+                                    } else {
+                                        classify_index_deviation(&v.sig, &got, &ids_exp, &pred, m, &indexed)
+                                    };
+                                    let (extra, missing) = set_diff(&got, &ids_exp);
+                                    let show = |ids: &[i64]| -> Vec<String> {
+                                        ids.iter().take(5).map(|i| m.rows.get(i).map(|r| vmon::table::render_row(r)).unwrap_or_default()).collect()
+                                    };
+                                    report.violation(
+                                        &sig,
+                                        &format!("{label}: {} (plan uses index: {uses_index})", v.what),
+                                        witness(label, json!({"knobs": knobs.describe(), "detail": v.detail, "extra_rows": show(&extra), "missing_rows": show(&missing),
+                                            "plan": plan.as_ref().map(|p| p.chars().take(600).collect::<String>()).unwrap_or_default()})),
+                                    );
+                                }
+                            }
+                            Err(ScanErr::Rejected(e)) => {
+                                if label == "index" {
+                                    report.rejected();
+                                    if report.counter("rejected_samples") < 2 {
+                                        report.count("rejected_samples", 1);
+                                        report.sample(json!({"rejected_filter": sql, "error": e.chars().take(160).collect::<String>()}));
+                                    }
+                                }
+                            }
+                            Err(ScanErr::Failed(e)) => {
+                                if !selftest {
+                                    report.violation(
+                                        &format!("{}-scan-failed", if label == "noindex" { "noindex" } else { "index" }),
+                                        &format!("{label}: {}", e.chars().take(300).collect::<String>()),
+                                        witness(label, json!({"error": e, "knobs": knobs.describe()})),
+                                    );
+                                }
+                            }
+                            Err(ScanErr::Timeout) => report.inconclusive(&format!("case {case}: scan timed out")),
+                        }
+                    }
+                    if executed && !selftest {
+                        match run_count(&t.ds, &q, &k_idx).await {
+                            Ok(n) => {
+                                if n as usize != ids_exp.len() {
+                                    report.violation(
+                                        "index-count-rows-differs",
+                                        &format!("count_rows with index = {n}, reference = {}", ids_exp.len()),
+                                        witness("count", json!({"count": n, "expected": ids_exp.len()})),
+                                    );
+                                }
+                            }
+                            Err(ScanErr::Failed(e)) => {
+                                report.violation("index-count-rows-failed", &e.chars().take(300).collect::<String>(), witness("count", json!({"error": e})));
+                            }
+                            _ => {}
+                        }
+                    }
+                    let selective = !ids_exp.is_empty() && ids_exp.len() < m.len();
+                    let nontrivial = executed && uses_index && selective;
+                    if executed {
+                        if uses_index {
+                            report.count("plans_using_index", 1);
+                        } else {
+                            report.count("plans_without_index", 1);
+                        }
+                        if selective {
+                            report.count("selective_predicates", 1);
+                        }
+                    }
+                    let shape = format!("{}|{:?}|{}|{}", ix.name(), xty, state_kind, pred.shape(&m.cols));
+                    report.case(if nontrivial { Some(fnv_str(&shape)) } else { None });
+                    if nontrivial && report.want_sample() && rng.chance(1, 60) {
+                        report.sample(json!({"table": table_desc, "history": t.history, "filter": sql, "matching": ids_exp.len(), "rows": m.len(),
+                            "plan": plan.as_ref().map(|p| p.lines().take(4).collect::<Vec<_>>().join(" / ")).unwrap_or_default()}));
+                    }
+                }
+            }
+        });
+    });
+    if selftest {
+        let (f, tt) = (st_fired.load(AO::Relaxed), st_total.load(AO::Relaxed));
+        println!("SELFTEST C19 oracle fired on {f} of {tt} corrupted observations");
+        return if tt > 0 && f == tt { 0 } else { 2 };
+    }
+    report.finish()
 }
